@@ -81,9 +81,12 @@ def hostile_binary(rng):
     imp = [0x84, 0x81, 0x61, 0x85, 0x21, 0x01, 0x88] + big
     docs.append(BVM + lst([(6, [0xBE] + iongen.varuint(2 * (1 + len(imp))) + ([0xDE, 0x80 | len(imp)] + imp)[:0] + [0xD0 | 0x0E, 0x80 | len(imp)] + imp + [0xDE, 0x80 | len(imp)] + imp)]) + [0x71, 0x08])
     # container / scalar lengths just below 2^64 and around 2^63, 2^32, 2^31 (10-byte and shorter VarUInts)
-    for t in (0x2, 0x8, 0x9, 0xB, 0xC, 0xD, 0xE):
+    for t in (0x2, 0x3, 0x4, 0x5, 0x6, 0x7, 0x8, 0x9, 0xA, 0xB, 0xC, 0xD, 0xE):
         for base in (1 << 64, 1 << 63, 1 << 32, 1 << 31):
-            for k in list(range(1, 24)) + [100, 4096]:
+            # below each boundary, and for 2^63 / 2^31 / 2^32 also AT and ABOVE it (a length >= 2^63 is negative as an
+            # int64, and pos + length need not wrap)
+            ks = list(range(1, 24)) + [100, 4096] + ([0, -1, -2, -100, -4096, -(1 << 62)] if base != (1 << 64) else [])
+            for k in ks:
                 v = base - k
                 if 0 < v < (1 << 64):
                     g = [v & 0x7F]
